@@ -50,5 +50,5 @@ def queuearc_tiny_push():
 
 REPLAYS = {
     "queuearc-late-bounce": queuearc_late_bounce,
-    "queuearc-tiny-push": queuearc_tiny_push,
+    "queuearc-tiny-push": queuearc_tiny_push,      # repaired: kept so that a regression can be recognised
 }
